@@ -414,7 +414,7 @@ pub fn run(pc: &PropCtx) {
     let cases = pc.tier.pick(60_000, 600_000);
     pc.run_tape("strategies", cases, (256, 6000), gen_case, check);
     if pc.tier == crate::runner::Tier::Thorough {
-        pc.run_fuzz("C02:strategies", 300_000, 16000, &|v| replay(pc, "strategies", v).unwrap_or(Verdict::Reject("unreadable")));
+        pc.run_fuzz("C02:strategies", 100_000, 16000, &|v| replay(pc, "strategies", v).unwrap_or(Verdict::Reject("unreadable")));
     }
     pc.require_class("strategies:reader_refilled>=2", cases as u64 / 4);
 }
